@@ -28,6 +28,7 @@
 from __future__ import annotations
 
 import typing
+from fractions import Fraction
 import re
 import logging
 from enum import Enum
@@ -219,14 +220,14 @@ def to_model(data_file: typing.IO, _config = None, progress_callback=lambda _: N
         int(m.group('begin_h')) * 3600 + 
         int(m.group('begin_m')) * 60 + 
         int(m.group('begin_s')) +
-        int(m.group('begin_ms')) / 1000
+        Fraction(int(m.group('begin_ms')), 1000)
         )
     
       current_p.set_end(
         int(m.group('end_h')) * 3600 + 
         int(m.group('end_m')) * 60 + 
         int(m.group('end_s')) +
-        int(m.group('end_ms')) / 1000
+        Fraction(int(m.group('end_ms')), 1000)
         )
 
       state = _State.TEXT
